@@ -264,7 +264,7 @@ def _run_pars(desc):
 PARVALUES = [0, 1, -1, 7, 2 ** 31, -2 ** 31 - 1, 2 ** 53, 2 ** 53 + 1, 10 ** 18 + 3, -(2 ** 63), 123456789012345678901234567890,
              0.0, -0.0, 1.0, -1.0, 0.5, 0.1 + 0.2, 1.0 / 3.0, 1e15, 1e16, 1e+16 + 2.0, 5e22, 1e100, 1.7976931348623157e308, 5e-324, 1e-5, 1.5e-7,
              123456789.0, float(2 ** 53), float(2 ** 53) + 2.0, -3e16, 2.5e-300, 6.02214076e23,
-             "P", "abc", "1e5x", "0x10", "a.b", "-", "+", "e5", "1.2.3", "12abc", ".", "--1", "a=b", "x==", "/d/year=2024/r=1.h5", "=", "k=v=w"]
+             "", "P", "abc", "1e5x", "0x10", "a.b", "-", "+", "e5", "1.2.3", "12abc", ".", "--1", "a=b", "x==", "/d/year=2024/r=1.h5", "=", "k=v=w"]
 
 
 def _run_parvalues(desc):
@@ -571,6 +571,33 @@ def _run_grains(desc):
             oknew = check_grains(sub2, "x", case, rh2, gl[::-1], False)
             if (raised is not None and not okold) or (raised is None and not oknew):
                 sh.violation("grain-hdf5:second-write-leaves-inconsistent-file", case, {"raised": repr(raised)})
+            # one file shared by a peaks table and the grains of two phases (one group per phase, as the dataset helpers write them):
+            # everything written earlier is still there after each later save
+            from ImageD11 import columnfile as C_
+            hs = os.path.join(wd, "shared.h5")
+            if os.path.exists(hs):
+                os.remove(hs)
+            pk = C_.colfile_from_dict({"sc": np.array([1.0, 2.0, 3.5]), "fc": np.array([3.0, 4.0, 0.25])})
+            import io as io_, contextlib as cl_
+            with cl_.redirect_stdout(io_.StringIO()):
+                C_.colfile_to_hdf(pk, hs, name="peaks")
+            G.write_grain_file_h5(hs, gl, group_name="Al")
+            G.write_grain_file_h5(hs, gl[::-1], group_name="Fe")
+            try:
+                r_al = G.read_grain_file_h5(hs, group_name="Al")
+                r_fe = G.read_grain_file_h5(hs, group_name="Fe")
+                with cl_.redirect_stdout(io_.StringIO()):
+                    r_pk = C_.columnfile(hs)
+                lost = None
+            except Exception as e:
+                lost = e
+            if lost is not None:
+                sh.violation("grain-hdf5[shared file]:an-earlier-group-is-gone-after-a-later-save", case, {"error": repr(lost)[:200]})
+            else:
+                check_grains(sh, "grain-hdf5[shared file, first phase]", case, r_al, gl, False)
+                check_grains(sh, "grain-hdf5[shared file, second phase]", case, r_fe, gl[::-1], False)
+                if not (np.array_equal(r_pk.sc, pk.sc) and np.array_equal(r_pk.fc, pk.fc)):
+                    sh.violation("grain-hdf5[shared file]:peaks-table-changed", case, {})
             # grain.to_h5py_group twice on the same group is an overwrite
             import h5py
             with h5py.File(os.path.join(wd, "t.h5"), "w") as hf:
